@@ -159,7 +159,12 @@ func (f *File) Readdir(count int) (res []os.FileInfo, err error) {
 	var outLength int64
 
 	f.fileData.Lock()
-	files := f.fileData.memDir.Files()[f.readDirCount:]
+	files := f.fileData.memDir.Files()
+	if f.readDirCount > int64(len(files)) {
+		// entries were removed since the previous page
+		f.readDirCount = int64(len(files))
+	}
+	files = files[f.readDirCount:]
 	if count > 0 {
 		if len(files) < count {
 			outLength = int64(len(files))
